@@ -54,8 +54,11 @@ def pad6 (n : Nat) : String :=
 
 def walName (w : Wal) : String := "i" ++ toString w.dir ++ "/" ++ pad6 w.num ++ ".wal"
 
+/-- the file name on disk: a late write (`lateName`) leaves a file of the same name with other content -/
+partial def diskName (p : String) : String := if p.endsWith "'" then diskName (p.dropRight 1) else p
+
 def filePath : File → String
-  | .sst p => p
+  | .sst p => diskName p
   | .wal w => walName w
 
 def aliveAt (st : St) (i : Nat) : Bool :=
@@ -288,6 +291,49 @@ def step (st : St) (ws : List String) : St × String :=
     match Files.step st.s (.release (natOr i)) with
     | none => (st, "not-alive")
     | some s' => ({ st with s := s' }, "ok")
+  | ["gate", i] => (st, if aliveAt st (natOr i) then "ok" else "not-alive")
+  | "writehold" :: i :: _ =>
+    -- the instance writes on while one of its compactions is held; it is dropped right afterwards, and what it
+    -- flushed since its last checkpoint is not tracked: leftovers in its directory that nobody references
+    if !aliveAt st (natOr i) then (st, "not-alive") else (st, joinWith " " hint)
+  | "writeflush" :: i :: _ =>
+    let i := natOr i
+    if !aliveAt st i then (st, "not-alive") else
+    match hint with
+    | ["ok", evs] =>
+      let events := if evs == "-" then [] else evs.splitOn ";"
+      let r := events.foldl (fun (acc : Option State × String) ev =>
+        match acc.1 with
+        | none => acc
+        | some s => match applyEvent s i ev with
+          | some s' => (some s', acc.2)
+          | none => (none, ev)) (some st.s, "")
+      match r.1 with
+      | some s' => ({ st with s := s' }, "ok " ++ evs)
+      | none => (st, "disabled " ++ r.2)
+    | _ => (st, joinWith " " hint)
+  | ["ungate"] =>
+    -- D63: the held compaction of the dropped instance saves its output files now, under the names its own
+    -- numbering reserved
+    match hint with
+    | ["late", i, tbls] =>
+      let i := natOr i
+      let need := needed st.s
+      let r := ((parseList tbls).filterMap parseTbl).foldl (fun (acc : State × List (String × String)) t =>
+        -- the file that has this name now (possibly itself the result of a late write)
+        let cur := (acc.1.files.filterMap fun f => match f with
+          | .sst p => if diskName p == t.uri then some p else none
+          | .wal _ => none).headD t.uri
+        let t' : Tbl := { t with uri := cur }
+        match Files.step acc.1 (.lateWrite i t') with
+        | some s' =>
+          -- D63's situation: a running instance of the same directory lists the overwritten table
+          let dirI := (acc.1.insts[i]?).map (·.dir)
+          let hit := acc.1.insts.any fun y => y.life = .alive && some y.dir == dirI && (uris y.current).contains cur
+          (s', if need.contains (.sst cur) then acc.2 ++ [(diskName cur, if hit then "D63" else "")] else acc.2)
+        | none => acc) (st.s, [])
+      ({ st with s := r.1, lostKf := st.lostKf ++ r.2 }, joinWith " " hint)
+    | _ => (st, joinWith " " hint)
   | ["redeployfail", i] =>
     match Files.step st.s (.redeployFailed (natOr i)) with
     | none => (st, "not-alive")
